@@ -267,6 +267,7 @@ class Index:
 
     def __init__(self, src: SourceSet, sub: str = 'bqskit') -> None:
         self.src = src
+        self._nested: dict[int, FunctionInfo] = {}
         self.modules: dict[str, Module] = {}
         self.by_path: dict[str, Module] = {}
         for rel in src.files(sub):
@@ -306,14 +307,29 @@ class Index:
         """`path.py:func` or `path.py:Class.method` (own, not inherited)."""
         p, _, n = qual.partition(':')
         m = self.module(p)
-        if '.' in n:
-            c, _, f = n.partition('.')
-            if c not in m.classes or f not in m.classes[c].methods:
+        parts = n.split('.')
+        if parts[0] in m.classes:
+            c = m.classes[parts[0]]
+            if len(parts) < 2 or parts[1] not in c.methods:
                 raise AnalysisError(f'anchor function vanished: {qual}')
-            return m.classes[c].methods[f]
-        if n not in m.functions:
+            base, rest = c.methods[parts[1]], parts[2:]
+        elif parts[0] in m.functions:
+            base, rest = m.functions[parts[0]], parts[1:]
+        else:
             raise AnalysisError(f'anchor function vanished: {qual}')
-        return m.functions[n]
+        # `outer.inner`: a def nested (at any depth) in the outer function
+        for name in rest:
+            inner = [x for x in ast.walk(base.node) if isinstance(
+                x, (ast.FunctionDef, ast.AsyncFunctionDef))
+                and x.name == name and x is not base.node]
+            if len(inner) != 1:
+                raise AnalysisError(f'anchor function vanished: {qual}')
+            key = id(inner[0])
+            if key not in self._nested:
+                self._nested[key] = FunctionInfo(
+                    inner[0], base.module, base.cls)
+            base = self._nested[key]
+        return base
 
     def has_fn(self, qual: str) -> bool:
         try:
